@@ -190,7 +190,7 @@ def stepLine (m : Mode) (line : String) : Mode × List String :=
   | ["rel", i] =>
     match i.toNat?, m with
     | some i, .server s =>
-      match doDone "rel-untouched-404" s i {} with
+      match doDone "rel-untouched" s i ((s.keptResp.lookup i).getD {}) with
       | none => (m, ["bad-op"])
       | some (s', ls) => (.server s', ls)
     | _, _ => (m, ["bad-op"])
